@@ -193,6 +193,109 @@ example : CleanName ['a', '_', 'b'] ∧ CleanName ['w', '-', '1'] ∧ CleanName 
     GlobFree ['a', '_', 'b'] ∧ FilterOK [] :=
   ⟨by decide, by decide, by decide, by decide, Or.inl rfl⟩
 
+
+/-! ### from the request to the stored key, and whole queries -/
+
+/-- a workload whose names are accepted by validation and keep the key layout intact -/
+def CleanWL (w : WL) : Prop :=
+  Accepted w.app w.entry w.node ∧ CleanName w.app ∧ CleanName w.entry ∧ CleanName w.node ∧ CleanName w.id ∧ '_' ∉ w.ident
+
+/-- **The key the store writes is the key of the creation names.**  The stores do not use the
+request's (app, entry) but parse them back from the workload name; for accepted clean names the
+two coincide, so the isolation theorems apply to what is really stored. -/
+theorem created_key (r : Str) (w : WL) (hw : CleanWL w) :
+    storedKey ('/' :: r) w = some (workloadKey ('/' :: r) w.app w.entry w.node w.id) := by
+  obtain ⟨⟨_, _, hus, _⟩, ha, _, _, _, hi⟩ := hw
+  have hhead : w.app.head? ≠ some '/' := by
+    intro h
+    cases hl : w.app with
+    | nil => rw [hl] at h; cases h
+    | cons c cs => rw [hl] at h; injection h with h; exact ha.2.1 (by rw [hl, h]; simp)
+  unfold storedKey
+  rw [parse_make_partial w.app w.entry w.ident hhead hus hi]
+
+/-- `created_key` composed with `prefix_isolated_partial`: the key actually written for a clean
+workload is selected by the list prefix iff the filters select the creation names -/
+theorem created_key_isolated (r fa fe fn : Str) (w : WL) (hr : CleanName r) (hw : CleanWL w)
+    (hfa : FilterOK fa) (hfe : FilterOK fe) (hfn : FilterOK fn) :
+    (match storedKey ('/' :: r) w with
+     | some k => hasPrefix (listPrefix ('/' :: r) fa fe fn) k
+     | none => false) = filterMatches fa fe fn w.app w.entry w.node := by
+  rw [created_key r w hw]
+  exact prefix_isolated_partial r fa fe fn _ _ _ _ hr hw.2.1 hw.2.2.1 hw.2.2.2.1 hw.2.2.2.2.1 hfa hfe hfn
+
+/-- distinct clean coordinates give distinct keys (no two workloads share a deploy/status key) -/
+theorem key_injective (r a e n id a' e' n' id' : Str) (hr : CleanName r)
+    (ha : CleanName a) (he : CleanName e) (hn : CleanName n) (hi : CleanName id)
+    (ha' : CleanName a') (he' : CleanName e') (hn' : CleanName n') (hi' : CleanName id')
+    (h : workloadKey ('/' :: r) a e n id = workloadKey ('/' :: r) a' e' n' id') :
+    a = a' ∧ e = e' ∧ n = n' ∧ id = id' := by
+  rw [key_layout r a e n id hr ha he hn hi, key_layout r a' e' n' id' hr ha' he' hn' hi'] at h
+  injection h with _ h
+  have h1 := congrArg (splitOn '/') h
+  rw [splitOn_joinWith '/' [r, a, e, n, id] (by simp), splitOn_joinWith '/' [r, a', e', n', id'] (by simp)] at h1
+  · simp at h1; exact h1
+  · intro x hx; simp at hx
+    rcases hx with rfl | rfl | rfl | rfl | rfl
+    · exact hr.2.1
+    · exact ha'.2.1
+    · exact he'.2.1
+    · exact hn'.2.1
+    · exact hi'.2.1
+  · intro x hx; simp at hx
+    rcases hx with rfl | rfl | rfl | rfl | rfl
+    · exact hr.2.1
+    · exact ha.2.1
+    · exact he.2.1
+    · exact hn.2.1
+    · exact hi.2.1
+
+/-- **Set-level isolation (etcd).** On any store content made of clean accepted workloads,
+`ListWorkloads(fa, fe, fn, 0, labels)` returns exactly the workloads created under the filter
+names that carry the labels — nothing from a neighbouring application, nothing missing. -/
+theorem list_isolated (r fa fe fn : Str) (ws : List WL) (labels : List (String × String))
+    (hr : CleanName r) (hws : ∀ w ∈ ws, CleanWL w)
+    (hfa : FilterOK fa) (hfe : FilterOK fe) (hfn : FilterOK fn) :
+    listQuery etcdSel ('/' :: r) ws fa fe fn 0 labels =
+      ws.filter fun w => filterMatches fa fe fn w.app w.entry w.node && labelsFilter w.labels labels := by
+  unfold listQuery applyLimit
+  simp only [if_true, List.filter_filter]
+  apply List.filter_congr
+  intro w hw
+  have hcw := hws w hw
+  rw [created_key r w hcw]
+  unfold etcdSel
+  simp only
+  rw [prefix_isolated_partial r fa fe fn _ _ _ _ hr hcw.2.1 hcw.2.2.1 hcw.2.2.2.1 hcw.2.2.2.2.1 hfa hfe hfn,
+    Bool.and_comm]
+
+/-- the same for Redis (`SCAN MATCH prefix*`), for names free of glob metacharacters -/
+theorem list_isolated_redis (r fa fe fn : Str) (ws : List WL) (labels : List (String × String))
+    (hr : CleanName r) (hws : ∀ w ∈ ws, CleanWL w)
+    (hfa : FilterOK fa) (hfe : FilterOK fe) (hfn : FilterOK fn)
+    (gr : GlobFree r) (gfa : GlobFree fa) (gfe : GlobFree fe) (gfn : GlobFree fn) :
+    listQuery redisSel ('/' :: r) ws fa fe fn 0 labels =
+      ws.filter fun w => filterMatches fa fe fn w.app w.entry w.node && labelsFilter w.labels labels := by
+  unfold listQuery applyLimit
+  simp only [if_true, List.filter_filter]
+  apply List.filter_congr
+  intro w hw
+  have hcw := hws w hw
+  rw [created_key r w hcw]
+  unfold redisSel
+  simp only
+  rw [glob_isolated_partial r fa fe fn _ _ _ _ hr hcw.2.1 hcw.2.2.1 hcw.2.2.2.1 hcw.2.2.2.2.1 hfa hfe hfn gr gfa gfe gfn,
+    Bool.and_comm]
+
+/-- `limit`: the stores cut the selection to `limit` keys (etcd: the first in key order) *before*
+the label filter; all that is guaranteed — and all the check asserts — is a sub-selection of that size -/
+theorem limit_subselection {α : Type} (limit : Nat) (l : List α) :
+    (applyLimit limit l).Sublist l ∧ (applyLimit limit l).length = if limit = 0 then l.length else min limit l.length := by
+  unfold applyLimit
+  split
+  · exact ⟨List.Sublist.refl l, rfl⟩
+  · exact ⟨List.take_sublist _ _, List.length_take⟩
+
 /-- the concrete roots used by the stores are of the required shape -/
 theorem roots_clean : deployRoot = '/' :: ['d', 'e', 'p', 'l', 'o', 'y'] ∧ CleanName ['d', 'e', 'p', 'l', 'o', 'y'] ∧
     statusRoot = '/' :: ['s', 't', 'a', 't', 'u', 's'] ∧ CleanName ['s', 't', 'a', 't', 'u', 's'] := by decide
